@@ -26,7 +26,7 @@ MANIFEST = dict(
          "ids_unique_all_schedules; (all call sequences) id_enters_only_default_file_names, default_names; obligations over "
          "data regenerated from the current source: registry_accesses_guarded, qsort_calls_guarded, qsort_guard_is_one_statement, "
          "globals_accounted_partial (strong AND weak object symbols in writable sections: function-local statics of inline/template "
-         "functions, static members, inline variables), policy_entries_have_reasons_and_are_live, init_only_tables_never_written "
+         "functions, static members, inline variables), policy_entries_have_reasons, init_only_tables_never_written "
          "(source reading: no assignment / mutation / address-taking of any table the policy calls initialiser-only), "
          "no_nonreentrant_libc_calls. Correspondence: the registry model is also checked against the C API in C13; here the "
          "isolation hypothesis of the model is tied to the code by the audits and by bit-for-bit comparison of sequential / "
@@ -221,7 +221,12 @@ def explore_with(ctx, exe, exet, budget, tsan_budget, repeats, thread_counts, hi
     distinct = set()
     for label, js, judged in (("strict", strict, True), ("transport", trans, False)):
         ctx.log(f"phase {label}: {len(js)} jobs")
+        import time
+        t0 = time.time()
         rc, ref, ids, err = run_h(ctx, exe, js, 1, 0, 0)
+        # watchdog for the concurrent runs of the same jobs: generous (a loaded machine, TSan's slow-down), yet finite — a
+        # shared iteration state typically shows up as a loop that no longer converges
+        wd = max(120.0, 60 * (time.time() - t0))
         lock_balance(ctx, label, js, ref, hist)
         if rc != 0 or len(ref) != len(js):
             ctx.violation(f"sequential reference run of the {label} jobs did not return normally (exit {rc})",
@@ -246,8 +251,15 @@ def explore_with(ctx, exe, exet, budget, tsan_budget, repeats, thread_counts, hi
         for nt in thread_counts:
             for rep in range(repeats):
                 co, ch, hold = rng.randint(0, 4), rng.randint(0, 3), rng.randint(0, 3)
-                rc, got, ids3, err = run_h(ctx, exe, js, nt, co, ch, hold=hold)
+                rc, got, ids3, err = run_h(ctx, exe, js, nt, co, ch, hold=hold, timeout=wd)
                 hist["hold_hist"][hold] = hist["hold_hist"].get(hold, 0) + 1
+                if LAST["timeout"]:
+                    what = f"{label} jobs on {nt} threads did not finish within {wd:.0f} s (one after the other they take {wd / 60:.1f} s or less)"
+                    if judged:
+                        ctx.violation(what, {"mode": "par", "threads": nt, "coexist": co, "churn": ch, "jobs": js, "watchdog_s": wd})
+                    else:
+                        ctx.finding("transport-file-scope-globals", what, {"mode": "par", "threads": nt, "jobs": js})
+                    break
                 evals += len(js)
                 hist["thread_runs"] += 1
                 hist["ids_checked"] += len(ids3)
@@ -268,7 +280,7 @@ def explore_with(ctx, exe, exet, budget, tsan_budget, repeats, thread_counts, hi
                         ctx.finding("transport-file-scope-globals", what, {"mode": "par", "threads": nt, "jobs": js})
         # threads under ThreadSanitizer
         tj = js[:tsan_budget]
-        rc, got, ids4, err = run_h(ctx, exet, tj, min(8, max(2, len(tj))), 2, 2, tsan=True, hold=2)
+        rc, got, ids4, err = run_h(ctx, exet, tj, min(8, max(2, len(tj))), 2, 2, tsan=True, hold=2, timeout=max(600.0, 20 * wd))
         evals += len(tj)
         hist["tsan_runs"] += 1
         reps = tsan_reports(err, transport_phase=not judged)
@@ -283,7 +295,12 @@ def explore_with(ctx, exe, exet, budget, tsan_budget, repeats, thread_counts, hi
                               (" on global " + ",".join(rp["globals"]) if rp["globals"] else ""),
                               {"mode": "tsan", "threads": 8, "jobs": tj, "report": rp["text"]})
         if rc != 0 and not reps:
-            ctx.violation(f"TSan run of the {label} jobs ended abnormally (exit {rc})", {"mode": "tsan", "jobs": tj, "stderr": err[-2000:]})
+            what = (f"TSan run of the {label} jobs did not finish within the watchdog time" if LAST["timeout"]
+                    else f"TSan run of the {label} jobs ended abnormally (exit {rc})")
+            if judged:
+                ctx.violation(what, {"mode": "tsan", "jobs": tj, "stderr": err[-2000:]})
+            else:
+                ctx.finding("transport-file-scope-globals", what, {"mode": "tsan", "jobs": tj})
         refd = {k: ref[k] for k in range(len(tj))}
         for k, what in compare(ctx, "8 threads under TSan", tj, refd, got, judged, hist):
             if judged:
@@ -482,6 +499,12 @@ def run(ctx):
     hist["audit"] = {k: (v if not isinstance(v, list) else len(v)) for k, v in audit.items()}
     shared = sorted(n for _, n in glob.get("writable", []) if n in KNOWN_SHARED)
     hist["writable_globals"] = len(glob.get("writable", []))
+    if glob.get("writable"):
+        present = {n for _, n in glob["writable"]}
+        stale = sorted(n for n in POLICY_NAMES if n not in present)
+        if stale:
+            # hygiene of the reviewed list, not a property of the code: a symbol that no longer exists needs no exemption
+            ctx.notes.append("policy entries whose symbol is no longer in the build (stale, harmless): " + ", ".join(stale))
     if shared:
         ctx.finding("transport-file-scope-globals", "file-scope variables of transport.cpp shared by all instances: " + " ".join(shared),
                     {"symbols": shared})
@@ -506,6 +529,11 @@ def run(ctx):
     ctx.assumptions += ["an operation on an instance reads and writes only that instance's state (discharged by the lock audit, the "
                         "writable-global audit and the differential/TSan runs, except for the transport.cpp variables of the known finding)",
                         "TSan observes only the schedules that occur in the runs"]
+
+
+POLICY_NAMES = {"map_lock", "qsort_lock", "IPhreeqc::Instances", "IPhreeqc::InstancesIndex", "IPhreeqc::Version",
+                "Keywords::phreeqc_keywords", "Keywords::phreeqc_keyword_names", "temp_keywords", "temp_keyword_names",
+                "PBasic::command_tokens", "temp_tokens", "temp_vopts", "Phreeqc::iso_defaults", "F_Re3", "DW.ref.*"} | KNOWN_SHARED
 
 
 def unaccounted(glob):
